@@ -31,7 +31,7 @@ TRUSTED = ["python exec of the same function source with the harness's HASH and 
 
 def plan(tier, seed):
     q = tier == "quick"
-    return dict(tasks=pool.batches("calls", 140 if q else 2400, 4) + pool.batches("forbidden", 12 if q else 60, 4), nworkers=4, time_cap=85 if q else 880, timeout=120)
+    return dict(tasks=pool.batches("calls", 140 if q else 2400, 4) + pool.batches("forbidden", 20 if q else 80, 4), nworkers=4, time_cap=85 if q else 880, timeout=120)
 
 
 def worker_init():
@@ -61,12 +61,18 @@ FUNCS = [
     ("cx_float", "def cx_float(a):\n    return a / 4 + 0.5\n", ["{i}", "{f}", "1", "-{i}"]),
     ("cx_enum", "def cx_enum(a):\n    return Color.Red * 100 + a\n", ["{s}", "DisplayMode.Celsius", "LogicType.On"]),
     ("cx_small", "def cx_small(a):\n    return a % 4\n", ["{i}", "{s}", "{i} * 3"]),
-    ("cx_nested", "def cx_inner(a):\n    return a + 1\n@constexpr\ndef cx_nested(a):\n    return cx_inner(a) * 2\n", ["{s}", "{i}"]),
+    # the helper's constant {K} varies from program to program while cx_nested and the call text stay the same
+    ("cx_nested", "def cx_inner(a):\n    return a + {K}\n@constexpr\ndef cx_nested(a):\n    return cx_inner(a) * 2\n", ["{s}", "3", "7"]),
 ]
 FORBIDDEN = [
     "def cx_bad(a):\n    return len(open('/etc/hostname').read()) + a\n",
     "def cx_bad(a):\n    return eval('1+1') + a\n",
     "def cx_bad(a):\n    exec('x = 1')\n    return a\n",
+    "def cx_bad(a, opener=open):\n    return a\n",
+    "def cx_bad(a, fn=eval):\n    return fn('1+1') + a\n",
+    "def cx_bad(a, fn=exec):\n    return a\n",
+    "def cx_bad(a):\n    def inner():\n        return eval('2')\n    return inner() + a\n",
+    "def cx_bad(a):\n    return (lambda: open)() and a\n",
     "def cx_bad(a):\n    s = 'open'\n    return a\n",
     "def cx_bad(a):\n    # eval in a comment\n    return a\n",
 ]
@@ -92,7 +98,7 @@ def gen_case(task, i):
         return dict(defs=["@constexpr\n" + body], calls=[dict(text="cx_bad(1)", position="assign")], options=o, stream=st, expect_rejected=True, module=False)
     k = r.randint(1, 3)
     picks = r.sample(FUNCS, k)
-    defs = ["@constexpr\n" + p[1] for p in picks]
+    defs = ["@constexpr\n" + p[1].replace("{K}", str(r.randint(1, 9))) for p in picks]
     calls = []
     for name, _src, argt in picks:
         for _ in range(r.randint(1, 2)):
